@@ -294,6 +294,8 @@ def gen_dupkey(c, rng):
         k1, k2 = "%s,%s" % (s1, l1), "%s,%s" % (s1, "zzz")
     else:
         k1, k2 = "%s,%s" % (s1, l1), "x,xyz"
+    if rng.random() < 0.15:
+        return gen_dupkey_handler_flag(c, rng)
     order = rng.choice(["sequential", "later-handler-first", "three-handlers"])
     A, B, C = "G %s 0\n" % hx("alpha"), "G %s 0\n" % hx("beta"), "G %s 0\n" % hx("gamma")
     d1, d2 = "AT i0 %s %s\n" % (hx(k1), hx("d")), "AT i1 %s %s\n" % (hx(k2), hx("d"))
@@ -314,6 +316,30 @@ def gen_dupkey(c, rng):
     text = lambda sid: "S %s dupkey\nGF %d\n%sV %s\nR\n" % (sid, gflags, body, hx("prog"))
     sid = c.add("c08", text)
     c.meta.update(dup=(kind + "/" + order + ("/sub-group-" + sgv if sgv else ""), k1, k2, sid), runs=[], nm=2)
+    return c
+
+
+def gen_dupkey_handler_flag(c, rng):
+    """the second key comes from a handler flag of a later member (-h / --help are defined inside the Handler constructor,
+    before the new handler is stored in the group): refused like any other duplicate"""
+    v = rng.choice(["short-vs-arg", "long-vs-arg", "long-vs-long", "short-vs-short", "distinct"])
+    A0 = "G %s 0\n" % hx("alpha")
+    if v == "short-vs-arg":
+        body, k1, k2 = A0 + "AT i0 %s %s\n" % (hx("h,host"), hx("d")) + "G %s %d\n" % (hx("beta"), HF["helpShort"]), "h,host", "-h (hfHelpShort)"
+    elif v == "long-vs-arg":
+        body, k1, k2 = A0 + "AT i0 %s %s\n" % (hx("x,help"), hx("d")) + "G %s %d\n" % (hx("beta"), HF["helpLong"]), "x,help", "--help (hfHelpLong)"
+    elif v == "long-vs-long":
+        body, k1, k2 = "G %s %d\n" % (hx("alpha"), HF["helpLong"]) + "G %s %d\n" % (hx("beta"), HF["helpLong"]), "--help (hfHelpLong)", "--help (hfHelpLong)"
+    elif v == "short-vs-short":
+        body = "G %s %d\n" % (hx("alpha"), HF["helpShort"]) + "AT i0 %s %s\n" % (hx("i,int"), hx("d")) + "G %s %d\n" % (hx("beta"), HF["helpShort"])
+        k1, k2 = "-h (hfHelpShort)", "-h (hfHelpShort)"
+    else:
+        body, k1, k2 = A0 + "AT i0 %s %s\n" % (hx("h,host"), hx("d")) + "G %s %d\n" % (hx("beta"), HF["helpLong"]), "h,host", "--help (hfHelpLong)"
+    if rng.random() < 0.5 and v != "distinct":
+        body = "G %s 0\nAT i2 %s %s\n" % (hx("gamma"), hx("q,quite-different"), hx("d")) + body
+    text = lambda sid: "S %s dupkey\nGF 0\n%sV %s\nR\n" % (sid, body, hx("prog"))
+    sid = c.add("c08", text)
+    c.meta.update(dup=(("distinct" if v == "distinct" else "handler-flag") + "/" + v, k1, k2, sid), runs=[], nm=2)
     return c
 
 
@@ -362,6 +388,14 @@ def judge(c, results, rep):
         r = results[sid]
         rep.stat("dupkey." + kind)
         kind = kind.split("/")[0]
+        if kind == "handler-flag":
+            # the member handler cannot even be created: the constructor that defines -h / --help throws
+            if r.status != "setup":
+                rep.viol("dupkey|handler-flag|accepted", "keys %r and %r accepted in two member handlers" % (k1, k2), [c.scenarios[0][1]])
+            elif "already" not in (r.ewhat or ""):
+                rep.viol("dupkey|setup-failed", "%s %s" % (r.etype, r.ewhat), [c.scenarios[0][1]])
+            rep.distinct(c.scenarios[0][1])
+            return
         if r.status == "setup":
             rep.viol("dupkey|setup-failed", "%s %s" % (r.etype, r.ewhat), [c.scenarios[0][1]])
             return
